@@ -275,7 +275,34 @@ func (b *docBuilder) body(v reflect.Value) *jnode {
 			}
 			var node *jnode
 			form := b.r.Intn(3)
+			if len(insts) > 1 && len(labels[0]) >= 2 && b.r.Chance(1, 2) {
+				form = 3
+			}
 			switch {
+			case form == 3:
+				// one nested object per label level, consecutive blocks with an equal prefix sharing the objects
+				var tree func(lo, hi, depth int) *jnode
+				tree = func(lo, hi, depth int) *jnode {
+					if depth == len(labels[lo]) {
+						if hi-lo == 1 {
+							return bodies[lo]
+						}
+						a := jArr()
+						a.kids = append(a.kids, bodies[lo:hi]...)
+						return a
+					}
+					o := &jnode{kind: 'o'}
+					for k := lo; k < hi; {
+						m := k + 1
+						for m < hi && labels[m][depth] == labels[k][depth] {
+							m++
+						}
+						o.put(labels[k][depth], tree(k, m, depth+1))
+						k = m
+					}
+					return o
+				}
+				node = tree(0, len(insts), 0)
 			case form == 0 && len(insts) == 1:
 				node = nest(labels[0], bodies[0])
 			case form == 1 && distinctFirst:
